@@ -217,7 +217,7 @@ func runLogicalServer(c LCase, info *vkit.Info) (bool, error) {
 	if err != nil {
 		return true, nil
 	}
-	w := &sworld{f: f, sl: sl, root: f.Root(), leader: -1}
+	w := &sworld{f: f, sl: sl, root: f.Root(), leader: -1, updInterval: time.Millisecond}
 	n := w.newNode(0)
 	defer func() {
 		n.mb.ResetLeader()
